@@ -15,13 +15,20 @@ WORKER = os.path.join(os.path.dirname(os.path.dirname(os.path.abspath(__file__))
 
 def gen_case(rng, tier):
     n = rng.choice([60, 120, 200, 300])
-    nf = rng.randint(2, 4)
+    nf = rng.randint(2, 5)
     types, X, orders = {}, {}, {}
     klass = rng.choice(["Discretizer", "BinaryCarver", "BinaryCarver", "ContinuousCarver"])
     y = [rng.randint(0, 1) for _ in range(n)] if klass != "ContinuousCarver" else [rng.randint(0, 30) for _ in range(n)]
-    names = rng.sample(["alpha", "beta", "gamma", "delta", "x1", "x2", "zeta", "Aa", "BB"], nf)
+    names = rng.sample(["alpha", "beta", "gamma", "delta", "x1", "x2", "zeta", "Aa", "BB", "k", "m9", "omega"], nf)
     for f in names:
-        t = rng.choice(["quant", "quant", "categ", "ordinal"])
+        t = rng.choice(["quant", "quant", "categ", "ordinal", "idlike"])
+        if t == "idlike" or (nf >= 3 and f == names[-1] and rng.random() < 0.3) or (
+                nf >= 3 and f == names[-2] and rng.random() < 0.3):
+            # id-like qualitative feature (every modality rarer than min_freq): dropped at fit
+            types[f] = "categ"
+            col = [f"id{(i * 7 + len(f)) % max(20, n // 2)}" for i in range(n)]
+            X[f] = encs(col)
+            continue
         types[f] = t
         if t == "quant":
             k = rng.choice([3, 5, 8, 40])
@@ -32,6 +39,10 @@ def gen_case(rng, tier):
             else:
                 vals = ["a", "b", "c", "d", "e"][: rng.randint(2, 5)]
             col = [vals[(rng.randrange(len(vals)) + (y[i] % 2 if rng.random() < 0.4 else 0)) % len(vals)] for i in range(n)]
+            if t == "categ" and rng.random() < 0.6:
+                # a few rare modalities (-> default group), drawn from letters other columns may use too
+                for i in rng.sample(range(n), max(2, n // 40)):
+                    col[i] = rng.choice(["e", "d", "zz"])
             if t == "ordinal":
                 orders[f] = encs([v for v in vals if isinstance(v, str)] if all(isinstance(v, str) for v in vals) else vals)
                 if not all(isinstance(v, str) for v in vals):
@@ -42,7 +53,7 @@ def gen_case(rng, tier):
                 col[i] = NAN
         X[f] = encs(col)
     return {"klass": klass, "types": types, "X": X, "orders": orders, "y": y, "names": names,
-            "min_freq": rng.choice([0.1, 0.15, 0.2]), "max_n_mod": rng.randint(2, 5),
+            "min_freq": rng.choice([0.1, 0.15, 0.2, 0.06, 0.13, 0.17]), "max_n_mod": rng.randint(2, 5),
             "dropna": rng.random() < 0.6, "output_dtype": rng.choice(["float", "str"]),
             "sort_by": rng.choice(["tschuprowt", "cramerv"]), "seed": rng.randrange(10 ** 6),
             "real_pools": tier == "thorough" or rng.random() < 0.35}
@@ -126,6 +137,10 @@ class C10(Prop):
                 if a is not None and a != b:
                     what = "values_orders" if (a["keys"], a["content"]) != (b["keys"], b["content"]) else "transform output"
                     return False, f"config {name}: {what} of feature {f} differs from the baseline"
+                pa, pb = base.get("probe"), r.get("probe")
+                if a is not None and isinstance(pa, dict) and pa.get(f) != (pb.get(f) if isinstance(pb, dict) else pb):
+                    return False, (f"config {name}: transform of a frame with unseen values differs for feature "
+                                   f"{f} from the baseline (injected into {base.get('probe_injected')})")
         return True, ""
 
     def coq_case(self, case, out):
